@@ -25,7 +25,8 @@ PROPERTY = "C19"
 
 RULE = ("case: k in {2,3} classes labelled 0..k-1 with 15..40 samples each (Gaussian blobs / lattice blobs with duplicated "
         "extreme coordinates / stripes / data already inside the unit cube, pushed through a random per-dimension affine "
-        "map), d=2 (quick) or 2..3 (thorough), 0..8 unlabelled samples in the original set, split percentage in "
+        "map), d features with d in {2,3,4} in both tiers (about 1/2 2-D, 3/8 3-D, 1/8 4-D; every quick run also executes "
+        "fixed 3-D cases in both subs and a fixed 4-D case in std), 0..8 unlabelled samples in the original set, split percentage in "
         "{0.5..0.9, 1.0}, split_evenly, shuffle_data, optional user data_range (wider / narrower than the data), learning "
         "by perform_classification (1<=lmin<=lmax<=3, masslumping on/off, lambda 0/0.01) [sub std] or "
         "perform_classification_dimension_wise (lmax 2..3, max_evaluations 20..60) [sub dw], one_vs_others on/off; then 1..3 "
@@ -43,6 +44,12 @@ RULE = ("case: k in {2,3} classes labelled 0..k-1 with 15..40 samples each (Gaus
         "between two evaluate/test operations, and about one case in nine (plus two fixed cases that every quick run executes) "
         "learns from a fine initial scheme (lmin,lmax)=(2,6) or (1,7), max_evaluations=1, so that the component grids have "
         ">= 200 points and the library's point-by-point interpolation branch is used. "
+        "Every class returned/stored by the library is compared with the arg-max of densities the harness evaluates ITSELF "
+        "(d-linear tensor hats from the definition on the component grids' points, surpluses in row-major order, scheme "
+        "coefficients) at ALL evaluated positions, never with densities obtained from the library's interpolation; class "
+        "counters 'd=*', 'max-multi-point-axes=*' (largest number of axes with > 1 interior point over the component grids: "
+        "genuinely tensor-product grids), 'component-grid<200' / 'component-grid>=200' (interior points of some component grid: "
+        "both of the library's interpolation branches are served). "
         "All oracle clauses are evaluated after learning and after every operation. Non-trivial = some operation with >=1 "
         "removed and >=1 kept sample is executed after an earlier successful test_data call. Distinct = distinct case dict.")
 
@@ -58,9 +65,12 @@ ASSUMPTIONS = [
     "coordinate < 0.0049 - 1e-9 or > 0.9951 + 1e-9 has to be removed; samples inside the library's 1e-4 tolerance band "
     "(0.0049..0.005 / 0.995..0.9951, generated for __call__ only) may go either way but must respect order and, if kept, "
     "the arg-max predicate",
-    "densities are computed by the harness itself from the CURRENT state of the learned objects: reference hat basis (from "
-    "the definition, zero boundary) on every component grid's current 1-D point coordinates (get_point_coord_for_each_dim; "
-    "2^l+1 equidistant points for the standard combination) times the stored surpluses (operation.get_result(), C order), "
+    "densities are computed by the harness itself from the CURRENT state of the learned objects, for any number of features "
+    "d (generated: 2, 3, 4): reference hat basis (from the definition, zero boundary) on every component grid's current 1-D "
+    "point coordinates (get_point_coord_for_each_dim; 2^l+1 equidistant points for the standard combination), tensor "
+    "product over the d axes, times the stored surpluses (operation.get_result(), row-major = C order over the interior "
+    "points: first axis slowest, last axis fastest - the order in which the library assembles the linear system, "
+    "get_cross_product_range / DensityEstimation.build_R_matrix), "
     "combined with the current scheme coefficients; the arg-max predicate uses these reference densities with tolerance "
     "1e-10*(1+max|density|), and the library's own combi(points) must reproduce them within 1e-9*max(1,|density|) "
     "(observed < 1e-13). That the surpluses themselves solve the estimation problem is C16/C17",
@@ -245,6 +255,11 @@ class RefDensity:
         if self.mode == "std":
             return [np.linspace(0.0, 1.0, 2 ** int(l) + 1) for l in lv]
         return [np.asarray(c, dtype=float) for c in self.combi.get_point_coord_for_each_dim(lv)[0]]
+
+    def max_multi_point_axes(self):
+        """largest number of axes with more than one interior point over the component grids (1 = only 'line' grids)"""
+        return max(sum(1 for c in self.stripes(tuple(int(x) for x in cg.levelvector)) if len(c) - 2 > 1)
+                   for cg in self.combi.scheme)
 
     def grid_sizes(self):
         return [int(self.np.prod([len(c) - 2 for c in self.stripes(tuple(int(x) for x in cg.levelvector))]))
@@ -609,6 +624,11 @@ def run(case):
         return any(int(de_.grid.get_num_points()) >= 200 for de_ in des)
     if evaluated and big_grid():
         out.cls("grid>=200")
+    out.cls("max-multi-point-axes=%d" % max(r_.max_multi_point_axes() for r_ in refs))
+    if any(gs < 200 for r_ in refs for gs in r_.grid_sizes()):
+        out.cls("component-grid<200")
+    if any(gs >= 200 for r_ in refs for gs in r_.grid_sizes()):
+        out.cls("component-grid>=200")
     for i, op in enumerate(case["ops"]):
         sig = sub
         if op["kind"] == "cont":
@@ -906,7 +926,9 @@ def run(case):
 # ----------------------------------------------------------------------------------------------------------------
 def _strategy(mode):
     def make(tier):
-        dims = [2] if tier == "quick" else [2, 2, 3]
+        # the feature count is part of the input domain (DataSet / Classification accept any d >= 1; the densities are
+        # d-linear tensor hats): about half of the cases are 2-D, the rest 3-D and a few 4-D, in BOTH tiers
+        dims = [2, 2, 2, 2, 3, 3, 3, 4]
 
         @st.composite
         def s(draw):
@@ -988,7 +1010,10 @@ def _fixed(mode):
                                obs=[dict(target="learning", action="scale_factor", f=3.0, vec=True),
                                     dict(target="prev_input", action="inplace", f=2.0, vec=False)])],
                      obs_end=[dict(target="learning", action="scale_range", f=2.0, vec=False)])
-        cases = [base, other]
+        # three and four features (tensor hats over > 2 axes; lmax - lmin = 2 gives component grids with several multi-point axes)
+        cases = [base, other, dict(base, rng=31337, d=3, lmin=1, lmax=3), dict(other, rng=2718, d=3, lmin=2, lmax=2 if mode == "std" else 3)]
+        if mode == "std":
+            cases.append(dict(base, rng=1618, d=4, k=2, n=[30, 30], lmin=1, lmax=3, layout="stripes"))
         if mode == "dw":
             # fine initial scheme (every component grid >= 189 points, the library's point-by-point interpolation branch),
             # evaluations before, between and after two continuations of the refinement
@@ -1089,6 +1114,48 @@ def selftest():
     # at (0.375, 0.375): (2,1): (0.5*1+0.5*2)*0.75 = 1.125 ; (1,2): 0.75*(0.5*4+0.5*5) = 3.375 ; (1,1): 7*0.75*0.75 = 3.9375
     got = ref(np.array([[0.25, 0.5], [0.375, 0.375], [0.0, 0.3]]))[:, 0]
     assert np.allclose(got, [1 + 2.5 - 3.5, 1.125 + 3.375 - 3.9375, 0.0], atol=1e-14), got
+    # 8c. ... in 3-D / 4-D the surpluses are row-major over the interior points (first axis slowest, last axis fastest):
+    #     grid (2,1,2) has 3x1x3 interior points, the hat at node (0.25, 0.5, 0.75) is entry [0,0,2] = 3rd surplus
+    class _Combi3:
+        scheme = [_CG((2, 1, 2), 1)]
+
+    class _DE3:
+        def get_result(self):
+            return {(2, 1, 2): [float(v) for v in range(1, 10)]}
+    ref3 = RefDensity(np, _Combi3(), _DE3(), "std")
+    got = ref3(np.array([[0.25, 0.5, 0.75], [0.75, 0.5, 0.25], [0.5, 0.25, 0.5], [0.375, 0.5, 0.625], [0.3, 1.0, 0.3]]))[:, 0]
+    # (0.375,.5,.625): x between nodes 0,1 (weights .5,.5), z between nodes 1,2 (.5,.5): (a01+a02+a11+a12)/4 = (2+3+5+6)/4
+    assert np.allclose(got, [3.0, 7.0, 0.5 * 5.0, 4.0, 0.0], atol=1e-14), got
+    assert ref3.max_multi_point_axes() == 2 and ref3.grid_sizes() == [9]
+
+    class _Combi4:
+        scheme = [_CG((1, 2, 1, 2), 2), _CG((1, 1, 1, 1), -1)]
+
+    class _DE4:
+        def get_result(self):
+            return {(1, 2, 1, 2): [float(v) for v in range(1, 10)], (1, 1, 1, 1): [10.0]}
+    got = RefDensity(np, _Combi4(), _DE4(), "std")(np.array([[0.5, 0.25, 0.5, 0.75], [0.5, 0.75, 0.5, 0.5], [0.25, 0.5, 0.5, 0.5]]))[:, 0]
+    assert np.allclose(got, [2 * 3.0 - 10 * 0.25, 2 * 8.0 - 10 * 0.5, 0.5 * (2 * 5.0 - 10.0)], atol=1e-14), got
+    # ... a library evaluation with the hats of a 3-D grid in another order (column-major) must be rejected, both as a density
+    # and - where the arg-max moves - as a class
+    class _DE3F:
+        def get_result(self):
+            return {(2, 1, 2): np.arange(1.0, 10.0).reshape(3, 1, 3).transpose(2, 1, 0).ravel().tolist()}
+    ref3_perm = RefDensity(np, _Combi3(), _DE3F(), "std")
+
+    def flat(P):
+        return np.full((len(P), 1), 4.0)
+    o = Outcome()
+    check_classes(np, o, "t/x", [ref3, flat], np.array([[0.25, 0.5, 0.75]]), [1], "selftest", lib=[ref3_perm, flat])
+    assert sorted(s for s, _ in o.violations) == ["t/density/combi-call-differs-from-reference-hats"], o.violations
+    o = Outcome()
+    check_classes(np, o, "t/x", [ref3, flat], np.array([[0.25, 0.5, 0.75]]), [0], "selftest")      # permuted density: 7 > 4
+    assert [s for s, _ in o.violations] == ["t/x/not-arg-max"], o.violations
+    # ... and the fixed 3-D / 4-D cases are silent on the real library
+    for fc in _fixed("std")()[2:]:
+        o = run(fc)
+        unknown = [s for s, _ in o.violations if "/bookkeeping/" not in s and "/print-incorrect-points-IndexError/" not in s]
+        assert not unknown and "d=%d" % fc["d"] in o.classes, (fc["d"], unknown)
     o = Outcome()
     check_classes(np, o, "t/x", [ref, ref], np.array([[0.375, 0.375]]), [0], "selftest", lib=[ref, lambda P: ref(P) * (1 + 1e-6)])
     assert [s for s, _ in o.violations] == ["t/density/combi-call-differs-from-reference-hats"], o.violations
